@@ -189,7 +189,10 @@ Record rec_case := { c_fn : fn; c_entries : list entry; c_threshold : Z;
 Record entry_case := { e_self : N; e_self_share : Z; e_pks : list (N * Z); e_threshold : Z;
                        e_coeffs : list Z; e_msgs : list msg; e_accepted : list bool;
                        e_obs : obs }.
-Inductive case := CRec (c : rec_case) | CEntry (c : entry_case).
+(* CHist: a HISTORY of recoveries made one after the other in ONE process (the production
+   situation: a long-lived client recovers again and again, from changing member subsets); every
+   call of the history carries its own inputs and its own observed output *)
+Inductive case := CRec (c : rec_case) | CEntry (c : entry_case) | CHist (h : list rec_case).
 
 Fixpoint distinctb (l : list Z) : bool :=
   match l with
@@ -286,11 +289,46 @@ Section Spec.
     let m := accepted_map (e_self c) (e_msgs c) (model_accepts c) [(e_self c, e_self_share c)] in
     complete_signature r (fun l => l) m (e_threshold c).
 
+  Definition agree_rec (c : rec_case) : bool :=
+    obs_eqb (norm_obs (c_obs c)) (model_obs (c_coeffs c) (run_rec c)).
+
+  (* ---------------- call histories in one process ----------------
+     What survives from one call of RecoverSignature / RecoverPublicKey to the next: bls.go
+     writes no package-level variable and the functions have no receiver, so the process state
+     threaded through a history carries nothing.  [call] is one recovery in state [st]. *)
+  Definition pstate := unit.
+  Definition call (st : pstate) (c : rec_case) : pstate * res := (st, run_rec c).
+  Fixpoint run_history (st : pstate) (h : list rec_case) : pstate * list res :=
+    match h with
+    | [] => (st, [])
+    | c :: t =>
+        let (st1, a) := call st c in
+        let (st2, rest) := run_history st1 t in
+        (st2, a :: rest)
+    end.
+
+  (* the property over a history: EVERY call is judged on its own — whatever was recovered
+     before it, an admissible share list yields the group signature / key *)
+  Definition spec_hist (h : list rec_case) : bool := forallb spec_rec h.
+  Fixpoint agree_hist_with (h : list rec_case) (answers : list res) : bool :=
+    match h, answers with
+    | [], [] => true
+    | c :: t, a :: ta =>
+        obs_eqb (norm_obs (c_obs c)) (model_obs (c_coeffs c) a) && agree_hist_with t ta
+    | _, _ => false
+    end.
+  Definition agree_hist (h : list rec_case) : bool :=
+    agree_hist_with h (snd (run_history tt h)).
+  (* a call of the history with the model's own answer as its observation *)
+  Definition with_model_obs (c : rec_case) : rec_case :=
+    {| c_fn := c_fn c; c_entries := c_entries c; c_threshold := c_threshold c;
+       c_coeffs := c_coeffs c; c_obs := model_obs (c_coeffs c) (run_rec c) |}.
+
   Definition judge (c : case) : verdict :=
     match c with
-    | CRec c =>
-        decide (spec_rec c)
-               (obs_eqb (norm_obs (c_obs c)) (model_obs (c_coeffs c) (run_rec c)))
+    | CRec c => decide (spec_rec c) (agree_rec c)
+    | CHist h =>
+        if Nat.eqb (length h) 0 then BadCase else decide (spec_hist h) (agree_hist h)
     | CEntry c =>
         if negb (Nat.eqb (length (e_msgs c)) (length (e_accepted c))) then BadCase else
         decide (spec_entry c)
@@ -298,10 +336,12 @@ Section Spec.
                 && obs_eqb (norm_obs (e_obs c)) (model_obs (e_coeffs c) (model_entry c)))
     end.
 
-  Definition explain (c : case) : list bool * res :=
+  (* CHist: (is the property true of the observation of call k, for every k; the model's answers) *)
+  Definition explain (c : case) : list bool * list res :=
     match c with
-    | CRec c => ([], run_rec c)
-    | CEntry c => (model_accepts c, model_entry c)
+    | CRec c => ([], [run_rec c])
+    | CEntry c => (model_accepts c, [model_entry c])
+    | CHist h => (map spec_rec h, snd (run_history tt h))
     end.
 End Spec.
 
